@@ -57,6 +57,20 @@ pub fn run(args: &Args) {
             if s.is_check() != chk {
                 out.ev(json!({"prop": "C10", "kind": "is_check", "fen": fen, "expected": chk}));
             }
+            // colour symmetry (C13): the specification supplies the mirrored position; both relations need no score oracle
+            if let Some(mfen) = g["mfen"].as_str() {
+                let ms = state_of_fen(mfen);
+                for &ply in [0usize, 3, 11].iter() {
+                    let (w, b) = (ev.evaluate(&s, Color::White, ply), ev.evaluate(&s, Color::Black, ply));
+                    if w != -b {
+                        out.ev(json!({"prop": "C13", "kind": "perspectives not negations", "fen": fen, "ply": ply, "white": i32::from(w), "black": i32::from(b)}));
+                    }
+                    let (mw, mb) = (ev.evaluate(&ms, Color::White, ply), ev.evaluate(&ms, Color::Black, ply));
+                    if w != mb || b != mw {
+                        out.ev(json!({"prop": "C13", "kind": "mirror image scored differently", "fen": fen, "mirror": mfen, "ply": ply, "white": i32::from(w), "mirror_black": i32::from(mb)}));
+                    }
+                }
+            }
             if g["imb"].as_u64().unwrap() < 900 {
                 for &ply in plies.iter() {
                     for persp in [Color::White, Color::Black] {
